@@ -110,6 +110,8 @@ structure Ext where
   U : UnicodeOps
   /-- `syn::parse_str::<syn::Type>` on `serialized_as` strings -/
   parseType : Str → Option SynType
+  /-- `convert_case::Casing::to_case(Case::Snake)` (used by the Python back end only) -/
+  snakeCase : Str → Str := id
 
 namespace Parser
 open Rename TargetOs
